@@ -46,9 +46,10 @@ type safeEmitPlain struct{ s string }
 func (x safeEmitPlain) Format(st fmt.State, verb rune) { st.Write([]byte(x.s + "/5")) }
 
 // c05Leaf returns (redact operand, fmt operand with unsafe leaves blanked).
-//  0 unsafe string Σu     1 unsafe int            2 SafeString(Σs)   3 Safe(Σs)
-//  4 SafeInt              5 regInt (registered)   6 safeEmit(Σs)     7 safeStr (SafeValue type)
-//  8 Safe(int)            9 unsafe []byte (under %s/%x/%q only)
+//
+//	0 unsafe string Σu     1 unsafe int            2 SafeString(Σs)   3 Safe(Σs)
+//	4 SafeInt              5 regInt (registered)   6 safeEmit(Σs)     7 safeStr (SafeValue type)
+//	8 Safe(int)            9 unsafe []byte (under %s/%x/%q only)
 func c05Leaf(k int, su, ss string, registered bool) (interface{}, interface{}) {
 	switch k {
 	case 0:
